@@ -1,11 +1,31 @@
 """C18 — strand and canonical-site flags are pure functions of the reference sequence."""
-import itertools, os, shutil, types, collections, tempfile, io
+import itertools, os, shutil, types, collections, tempfile, io, traceback
 from lib import *
 from props._idcanon import *
 from props import c17 as C17
 
 PRE = "From IQ Require Import Ids IdsSpec Canon CanonSpec.\nOpen Scope Z_scope.\n"
 KEY_WINDOW = "C18:intron-outside-window"
+
+
+def guarded(ctx, name, f, *a):
+    """one section of the check: an exception of the harness breaks that section only, the others still run"""
+    try:
+        return f(*a)
+    except Exception:
+        ctx.broken("harness:%s" % name, "exception in section %s:\n%s" % (name, traceback.format_exc()[-3000:]))
+
+class ImplRaised(Exception):
+    pass
+
+def real(ctx, what, replay, f, *a, **k):
+    """call real code; an exception (or non-termination) on an input of the documented domain is reported as a violation with that input"""
+    try:
+        return with_timeout(lambda: f(*a, **k), seconds=20.0)
+    except ImplTimeout:
+        ctx.violation(None, "%s does not terminate within 20 s" % what, replay); raise ImplRaised()
+    except Exception as e:
+        ctx.violation(None, "%s raises %s" % (what, type(e).__name__), dict(replay, error=str(e)[:300], traceback=traceback.format_exc()[-1200:])); raise ImplRaised()
 
 
 def cflag(v):
@@ -41,7 +61,9 @@ def corr_histories(ctx, quick):
     cases = []
     def one(text, ws, we, qs, tag):
         gi = fake_gene_info(text, ws, we)
-        ans = [io_.check_sites_are_canonical(list(q[1]), gi, q[0]) for q in qs]
+        try: ans = [real(ctx, "check_sites_are_canonical", {"reference_text": text, "window(1-based, inclusive)": (ws, we), "queries(strand, introns)": [(x[0], list(x[1])) for x in qs], "failing_query": (q[0], list(q[1]))},
+                         io_.check_sites_are_canonical, list(q[1]), gi, q[0]) for q in qs]
+        except ImplRaised: return
         term = "((%s, %s, %s, %s), %s)" % (cs(text), cz(ws), cz(we), clist(qs, cquery), clist(ans, cbool))
         cases.append((term, {"reference_text": text, "window(1-based, inclusive)": (ws, we), "queries(strand, introns)": [(q[0], list(q[1])) for q in qs], "impl": ans, "stream": tag,
                              "all_inside": all(inside(ws, we, i) for q in qs for i in q[1]), "all_outside": all(not inside(ws, we, i) for q in qs for i in q[1])}))
@@ -86,18 +108,23 @@ def corr_flags(ctx, quick):
     pre = PRE + "Definition tc (c:(str * Z * Z * list flag_op) * list (option flag)) := c.\nDefinition check := flags_check.\nDefinition prop := flags_prop.\n"
     params = types.SimpleNamespace(cage=None, check_canonical=True)
     def run_ops(text, ws, we, ops):
+        rp = {"reference_text": text, "window": (ws, we), "ops": [list(map(lambda x: list(x) if isinstance(x, tuple) else x, op)) for op in ops]}
         gi = fake_gene_info(text, ws, we); gi.all_isoforms_introns = {"T": []}
         pr = BasicTSVAssignmentPrinter.__new__(BasicTSVAssignmentPrinter)
         pr.assignment_checker = PrintAllFunctor(); pr.params = params; pr.gzipped = False; pr.io_support = IOSupport(params)
         sup = IOSupport(params); out = []
         for op in ops:
             if op[0] == "read":
-                _, strand, exons = op
+                _, strand, exons = op[:3]
+                tstrand = op[3] if len(op) > 3 else strand          # strand of the matched isoform: antisense / inconsistent reads are reported on another strand than their isoform
                 pr.output_file = io.StringIO()
-                ra = types.SimpleNamespace(read_id="r", chr_id="chrA", strand=strand, assignment_type=ReadAssignmentType.unique, exons=list(exons), gene_info=gi,
-                                           isoform_matches=[types.SimpleNamespace(assigned_transcript="T", assigned_gene="G", match_classification=MatchClassification.full_splice_match, match_subclassifications=[])],
-                                           gene_assignment_type=ReadAssignmentType.unique, polyA_found=False, additional_attributes={})
-                pr.add_read_info(ra)
+                ra = types.SimpleNamespace(read_id="r", chr_id="chrA", strand=strand, mapped_strand=strand, assignment_type=ReadAssignmentType.inconsistent if tstrand != strand else ReadAssignmentType.unique,
+                                           exons=list(exons), corrected_exons=list(exons), gene_info=gi,
+                                           isoform_matches=[types.SimpleNamespace(assigned_transcript="T", assigned_gene="G", transcript_strand=tstrand, penalty_score=0.0,
+                                                                                  match_classification=MatchClassification.full_splice_match, match_subclassifications=[])],
+                                           gene_assignment_type=ReadAssignmentType.unique, polyA_found=False, cage_found=False, multimapper=False, mapping_quality=60, read_group="NA",
+                                           genomic_region=(1, len(text)), additional_attributes={}, additional_info={})
+                real(ctx, "BasicTSVAssignmentPrinter.add_read_info", dict(rp, failing_op=list(op)), pr.add_read_info, ra)
                 line = pr.output_file.getvalue().rstrip("\n").split("\t")
                 info = dict(x.strip().split("=", 1) for x in line[8].split(";") if "=" in x)
                 out.append(info.get("Canonical"))
@@ -105,12 +132,12 @@ def corr_flags(ctx, quick):
                 _, existing, strand, exons = op
                 m = TranscriptModel("chrA", strand, "t", "g", list(exons), TranscriptModelType.novel_not_in_catalog)
                 if existing is not None: m.add_additional_attribute("Canonical", existing)
-                sup.add_canonical_info([m], gi)
+                real(ctx, "IOSupport.add_canonical_info", dict(rp, failing_op=list(op)), sup.add_canonical_info, [m], gi)
                 out.append(m.additional_info.get("Canonical"))
         pr.output_file = io.StringIO()
         return out
     def cop(op):
-        if op[0] == "read": return "(ReadOp %s %s)" % (cstrand(op[1]), cintrons(op[2]))
+        if op[0] == "read": return "(ReadOp %s %s)" % (cstrand(op[1]), cintrons(op[2]))      # the isoform's strand is not an argument of the model: the flag is a function of the reported strand
         return "(ModelOp %s %s %s)" % (cflag(op[1]), cstrand(op[2]), cintrons(op[3]))
     cases = []
     def exon_lists(I, L):
@@ -122,13 +149,15 @@ def corr_flags(ctx, quick):
                 res.append(tuple((b[2 * j], b[2 * j + 1]) for j in range(len(b) // 2)))
         res.append(((3, 9),)); res.append(((3, 9), (10, 20)))
         return res
+    def exs(op): return op[2] if op[0] == "read" else op[3]
     def one(text, ws, we, ops, tag):
-        out = run_ops(text, ws, we, ops)
+        try: out = run_ops(text, ws, we, ops)
+        except ImplRaised: return
         term = "((%s, %s, %s, %s), %s)" % (cs(text), cz(ws), cz(we), clist(ops, cop), clist(out, cflag))
-        ins = all(inside(ws, we, (a[1] + 1, b[0] - 1)) for op in ops for a, b in zip(op[-1], op[-1][1:]) if a[1] + 1 < b[0])
+        ins = all(inside(ws, we, (a[1] + 1, b[0] - 1)) for op in ops for a, b in zip(exs(op), exs(op)[1:]) if a[1] + 1 < b[0])
         cases.append((term, {"reference_text": text, "window": (ws, we), "ops": [list(map(lambda x: list(x) if isinstance(x, tuple) else x, op)) for op in ops], "impl": out, "stream": tag, "all_inside": ins}))
     text, I = three_intron_text(rnd, ("+", "-", "n"), 0); EL = exon_lists(I, len(text))
-    alphabet = [("read", s, e) for s in "+-" for e in (EL[0], EL[3])] + [("model", None, s, e) for s in "+-" for e in (EL[0], EL[3])]
+    alphabet = [("read", s, e) for s in "+-" for e in (EL[0], EL[3])] + [("model", None, s, e) for s in "+-" for e in (EL[0], EL[3])] + [("read", "-", EL[0], "+"), ("read", "+", EL[3], "-")]
     for n in (1, 2, 3):
         for ops in itertools.product(alphabet, repeat=n): one(text, 1, len(text), list(ops), "exhaustive")
     for _ in range(900 if quick else 6000):
@@ -137,10 +166,11 @@ def corr_flags(ctx, quick):
         ws, we = rnd.choice([(1, len(text)), (1, len(text)), (5, 68), (1, 0)])          # (1, 0): no reference stored
         ops = []
         for _k in range(rnd.randint(1, 8)):
-            if rnd.random() < .5: ops.append(("read", rnd.choice("++--."), rnd.choice(EL)))
+            if rnd.random() < .5:
+                st = rnd.choice("++--."); ops.append(("read", st, rnd.choice(EL)) if rnd.random() < .6 else ("read", st, rnd.choice(EL), rnd.choice("+-.")))
             else: ops.append(("model", rnd.choice([None, None, None, "True", "False", "Unspliced"]), rnd.choice("++--."), rnd.choice(EL)))
         one(text, ws, we, ops, "random")
-    ctx.rule("Canonical= of read records (REAL BasicTSVAssignmentPrinter.add_read_info on fake assignments) and Canonical attribute of models (REAL IOSupport.add_canonical_info on TranscriptModel objects) through one shared gene_info: every sequence of <= 3 operations over {read, model} x {+,-} x 2 exon structures, random sequences of up to 8 with '.' strands, existing attributes, mono-exonic and gap-free records, lower-case texts, no stored reference; non-trivial = a spliced record")
+    ctx.rule("Canonical= of read records (REAL BasicTSVAssignmentPrinter.add_read_info on fake assignments) and Canonical attribute of models (REAL IOSupport.add_canonical_info on TranscriptModel objects) through one shared gene_info: every sequence of <= 3 operations over {read, model} x {+,-} x 2 exon structures + 2 reads reported on the strand opposite to their matched isoform's, random sequences (40% of the reads matched to an isoform of an independently drawn strand) of up to 8 with '.' strands, existing attributes, mono-exonic and gap-free records, lower-case texts, no stored reference; non-trivial = a spliced record")
     m, v = ctx.corr("canonical-flags", pre, typed(cases), shard=300, nontrivial=lambda o: any(x in ("True", "False") for x in o["impl"]))
     ctx.corr_report("canonical-flags", m, v, keyfn=lambda o: None)
 
@@ -158,8 +188,11 @@ def corr_common(ctx, quick):
         introns = [(i[0] + sh_, i[1] + sh_) for i in rnd.sample(I, rnd.randint(0, 3))]
         if rnd.random() < .25: introns.append((rnd.randint(-5, 90), rnd.randint(-5, 90)))     # anywhere, also outside the string (Python slices clip and wrap)
         st = rnd.choice("+-")
-        each = [get_intron_strand(i, text, start) for i in introns]
-        al = get_strand(introns, text, start); cnt = count_noncanonincal(introns, text, st, start)
+        rp = {"text": text, "ref_region_start": start, "introns": introns, "strand": st}
+        try:
+            each = [real(ctx, "get_intron_strand", rp, get_intron_strand, i, text, start) for i in introns]
+            al = real(ctx, "get_strand", rp, get_strand, introns, text, start); cnt = real(ctx, "count_noncanonincal", rp, count_noncanonincal, introns, text, st, start)
+        except ImplRaised: continue
         term = "((%s, %s, %s, %s), (%s, %s, %s))" % (cs(text), cz(start), cintrons(introns), cstrand(st), clist(each, cstrand), cstrand(al), cz(cnt))
         cases.append((term, {"text": text, "ref_region_start": start, "introns": introns, "strand": st, "get_intron_strand": each, "get_strand": al, "count_noncanonincal": cnt}))
     ctx.rule("common.get_intron_strand / get_strand / count_noncanonincal on random strings with planted sites of all six canonical kinds and non-canonical ones, upper / mixed / lower case, region starts {0,1,5,30}, introns also outside the string; non-trivial = an intron with a strand")
@@ -178,23 +211,27 @@ def corr_detector(ctx, quick):
     tmp = tempfile.mkdtemp(prefix="iqv_c18_fa_"); cases = []
     try:
         def one(text, isoforms, ops, use_pyfaidx, k):
+            try: one_(text, isoforms, ops, use_pyfaidx, k)
+            except ImplRaised: pass
+        def one_(text, isoforms, ops, use_pyfaidx, k):
+            rp = {"reference_text": text, "pyfaidx_record": use_pyfaidx, "isoforms(tid,strand,gene,introns)": isoforms, "ops": [list(map(str, op)) for op in ops]}
             rec = text
             if use_pyfaidx:
                 from pyfaidx import Fasta
                 p = os.path.join(tmp, "r%d.fa" % k); open(p, "w").write(">chrA\n" + "\n".join(text[i:i + 30] for i in range(0, len(text), 30)) + "\n")
                 rec = Fasta(p)["chrA"]
-            c = make_constructor("chrA", rec, isoforms, {g: "+" for g in GI}, False, [], types.SimpleNamespace(), SimpleIDDistributor())
+            c = real(ctx, "GeneInfo / GraphBasedModelConstructor set-up (set_gene_properties, StrandDetector)", rp, make_constructor, "chrA", rec, isoforms, {g: "+" for g in GI}, False, [], types.SimpleNamespace(), SimpleIDDistributor())
             det = c.strand_detector; me = types.SimpleNamespace(strand_detector=det); out = []; cops = []
             for op in ops:
                 if op[0] == "get":
-                    out.append(det.get_strand(list(op[1]), op[2], op[3])); cops.append("(GetStrand %s %s %s)" % (cintrons(op[1]), cbool(op[2]), cbool(op[3])))
+                    out.append(real(ctx, "StrandDetector.get_strand", dict(rp, failing_op=list(map(str, op))), det.get_strand, list(op[1]), op[2], op[3])); cops.append("(GetStrand %s %s %s)" % (cintrons(op[1]), cbool(op[2]), cbool(op[3])))
                 elif op[0] == "clean":
-                    out.append(det.get_clean_strand(list(op[1]))); cops.append("(GetClean %s)" % cintrons(op[1]))
+                    out.append(real(ctx, "StrandDetector.get_clean_strand", dict(rp, failing_op=list(map(str, op))), det.get_clean_strand, list(op[1]))); cops.append("(GetClean %s)" % cintrons(op[1]))
                 else:
                     _, tstrand, atype, pos, nex, introns = op
                     ra = types.SimpleNamespace(isoform_matches=[types.SimpleNamespace(transcript_strand=tstrand)] if tstrand else [], assignment_type=atype,
                                                polya_info=PolyAInfo(pos[0], pos[2], pos[1], pos[3]), exons=[(1, 2)] * nex, corrected_introns=list(introns))
-                    out.append(AlignmentCollector.get_assignment_strand(me, ra))
+                    out.append(real(ctx, "AlignmentCollector.get_assignment_strand", dict(rp, failing_op=list(map(str, op))), AlignmentCollector.get_assignment_strand, me, ra))
                     matched = tstrand if (tstrand and atype in (T.unique, T.unique_minor_difference)) else None
                     cops.append("(ReadStrand %s %s %s %s %s %s %s)" % ("None" if matched is None else "(Some %s)" % cstrand(matched), cz(pos[0]), cz(pos[1]), cz(pos[2]), cz(pos[3]), cz(nex), cintrons(introns)))
             sd = det.strand_dict
@@ -261,7 +298,28 @@ def pipeline(ctx, quick):
         jobs.append(dict(name="bundled", fasta=b["fasta"], gtf=b["gtf"], bam=b["bam"], extra=["--complete_genedb"]))
         if not quick: jobs.append(dict(name="bundled-all", fasta=b["fasta"], gtf=b["gtf"], bam=b["bam"], extra=["--complete_genedb", "--report_canonical", "all", "--report_novel_unspliced", "true"]))
         for seed, level in ([(21, "only_canonical"), (22, "all")] if quick else [(21, "only_canonical"), (22, "all"), (23, "only_stranded"), (24, "all"), (25, "only_canonical")]):
-            w = gen_data.World(ctx.seed * 1000 + seed, n_chr=2, lower_frac=0.35); w.reads_from_annotation(per_isoform=3); w.novel_reads(per_gene=5)
+            w = gen_data.World(ctx.seed * 1000 + seed, n_chr=2, lower_frac=0.35)
+            # antisense / inconsistent reads: inside a gene, every intron 30 bp wider on both sides than an annotated one and canonical on the strand
+            # OPPOSITE to the gene's (planted before any read copies the reference): such a read is matched to the isoform but reported on the other strand
+            anti = []
+            for g in w.genes:
+                opp = "-" if g["strand"] == "+" else "+"
+                for tid, ix in list(g["isoforms"].items())[:1]:
+                    ex = [g["pool"][i] for i in ix]
+                    # the longest run of consecutive exons that are long enough to lose 12 / 30 bp on their inner sides (more than the matching tolerance)
+                    runs = []; cur = []
+                    for e in ex:
+                        if e[1] - e[0] >= 44: cur.append(e)
+                        else: runs.append(cur); cur = []
+                    runs.append(cur); ex = max(runs, key=len)
+                    if len(ex) < 2: continue
+                    mg = lambda e: 30 if e[1] - e[0] >= 90 else 12
+                    ax = [(a + (mg((a, b)) if k else 0), b - (mg((a, b)) if k < len(ex) - 1 else 0)) for k, (a, b) in enumerate(ex)]
+                    w.chroms[g["chr"]] = list(w.chroms[g["chr"]]); w.plant(ax, g["chr"], opp); w.chroms[g["chr"]] = "".join(w.chroms[g["chr"]])
+                    anti.append((g, tid, ax, opp))
+            w.reads_from_annotation(per_isoform=3); w.novel_reads(per_gene=5)
+            for g, tid, ax, opp in anti:
+                for rep_ in range(4): w.add_read("antisplice_%s_%d" % (tid, rep_), g["chr"], ax, opp, polya=rep_ % 2 == 0)
             # opposite-strand reads over the same introns: the same intron is asked on '+' and on '-' within one locus
             for g in w.genes[:3]:
                 for tid, ix in list(g["isoforms"].items())[:1]:
@@ -278,10 +336,12 @@ def pipeline(ctx, quick):
         pre = PRE + "Definition tc (c:canon_rec) := c.\nDefinition check (c:canon_rec) := true.\n"
         with ThreadPoolExecutor(4) as ex:
             results = list(ex.map(run, jobs))
-        for job, rc, txt, out, log in results:
+        n_cross = 0
+        def evaluate(job, rc, txt, out, log):
+            nonlocal n_cross
             ctx.cov["pipeline_runs"] += 1
             if rc != 0:
-                ctx.violation(None, "IsoQuant exits with %d (%s)" % (rc, job["name"]), {"job": job["name"], "log_tail": txt[-1500:]}); continue
+                ctx.violation(None, "IsoQuant exits with %d (%s)" % (rc, job["name"]), {"job": job["name"], "arguments": job["extra"], "log_tail": txt[-1500:]}); return
             fasta = P.read_fasta(job["fasta"])
             windows = collections.defaultdict(set)           # (chr, intron) -> windows it was looked up in
             if os.path.exists(log):
@@ -289,10 +349,18 @@ def pipeline(ctx, quick):
                     v = l.rstrip("\n").split("\t")
                     for x in v[1].split(","):
                         a, b_ = x.split("-"); windows[(v[0], (int(a), int(b_)))].add((int(v[3]), int(v[3]) + int(v[4]) - 1))
-            rows = []
+            rows = []; iso_strand = {}
+            ann, _g = P.read_gtf(job["gtf"])
             ra = P.find(out, "S", "read_assignments.tsv")
+            if ra is None:
+                ctx.violation(None, "no read_assignments.tsv written (%s)" % job["name"], {"job": job["name"], "arguments": job["extra"]}); return
+            cross = 0
             for d in P.read_assignments(ra):
                 rows.append((d["chr"], d["strand"], d["exons"], d["info"].get("Canonical"), d["isoform_id"] != ".", ("read", d["read_id"], d["isoform_id"])))
+                ts = ann[d["isoform_id"]]["strand"] if d["isoform_id"] in ann else None
+                iso_strand[len(rows) - 1] = ts
+                if ts is not None and ts != d["strand"] and d["info"].get("Canonical") in ("True", "False"): cross += 1
+            n_cross += cross
             n_reads = len(rows)
             for suffix in ("transcript_models.gtf", "extended_annotation.gtf"):
                 tr, _g = P.read_gtf(os.path.join(out, "S", "S." + suffix))
@@ -300,8 +368,9 @@ def pipeline(ctx, quick):
                     rows.append((t["chr"], t["strand"], t["exons"], t["attrs"].get("Canonical"), True, (suffix, tid)))
             recs = canon_records(fasta, rows)
             cases = []
-            for (term, must, what), row in zip(recs, rows):
-                cases.append((term, {"job": job["name"], "record": what, "chr": row[0], "strand": row[1], "exons": row[2], "printed": row[3], "must_have": must}))
+            for k_, ((term, must, what), row) in enumerate(zip(recs, rows)):
+                cases.append((term, {"job": job["name"], "arguments": job["extra"], "record": what, "chr": row[0], "strand": row[1], "strand_of_the_matched_isoform": iso_strand.get(k_), "exons": row[2], "printed": row[3], "must_have": must,
+                                     "intron_dinucleotides": [(fasta[row[0]][a[1]:a[1] + 2], fasta[row[0]][b_[0] - 3:b_[0] - 1]) for a, b_ in zip(row[2], row[2][1:]) if a[1] + 1 <= b_[0] - 1]}))
             # must_have is part of the evaluation: two preambles, two groups
             for must in (True, False):
                 grp = [c for c in cases if c[1]["must_have"] == must]
@@ -318,8 +387,10 @@ def pipeline(ctx, quick):
                     return None
                 ctx.corr_report("pipeline-canon_ok/%s" % job["name"], m_, v_, keyfn=key, what="canon_ok: printed Canonical value differs from the recomputation on the FASTA")
             both = sum(1 for k, ws in windows.items() if len(ws) > 0)
-            ctx.notes.append("pipeline %s: %d read records, %d model records, %d distinct introns looked up" % (job["name"], n_reads, len(rows) - n_reads, both))
-        ctx.rule("pipeline: --check_canonical runs on the bundled data and on generated two-chromosome data (35% lower-case FASTA, reads of both strands over the same introns, --report_canonical only_canonical / all): every Canonical= of read_assignments.tsv and every Canonical attribute of both GTFs recomputed by Coq canon_ok from the dinucleotides the harness cuts out of the FASTA, on the printed strand; non-trivial = spliced record")
+            ctx.notes.append("pipeline %s: %d read records (%d spliced ones reported on another strand than their matched isoform's), %d model records, %d distinct introns looked up" % (job["name"], n_reads, cross, len(rows) - n_reads, both))
+        for r_ in results: guarded(ctx, "pipeline:" + r_[0]["name"], evaluate, *r_)
+        if n_cross == 0: ctx.broken("harness:pipeline-generator", "no spliced read was reported on a strand other than its matched isoform's (antisense reads missing: generator too weak)")
+        ctx.rule("pipeline: --check_canonical runs on the bundled data and on generated two-chromosome data (35% lower-case FASTA, reads of both strands over the same introns, reads inside genes spliced at sites canonical on the opposite strand - matched to an isoform but reported on the other strand -, --report_canonical only_canonical / all): every Canonical= of read_assignments.tsv and every Canonical attribute of both GTFs recomputed by Coq canon_ok from the dinucleotides the harness cuts out of the FASTA, on the printed strand; non-trivial = spliced record")
     finally:
         shutil.rmtree(root, ignore_errors=True)
 
@@ -328,14 +399,14 @@ def run(ctx):
     quick = ctx.tier == "quick"
     ctx.prepare("C18.v")
     ctx.rule("regenerated from the source on every run (tools/translate_extra.py -> coq/gen/Extra.v; bridged to the model by C18_site_sets_are_the_sources): CANONICAL_FWD_SITES / CANONICAL_REV_SITES of src/common.py as lists of pairs of byte lists, in the order of the set literals")
-    corr_sites(ctx)
-    corr_histories(ctx, quick)
-    corr_flags(ctx, quick)
-    corr_common(ctx, quick)
-    corr_detector(ctx, quick)
-    corr_constructor(ctx, quick)
+    guarded(ctx, "canonical-site-sets", corr_sites, ctx)
+    guarded(ctx, "check_sites_are_canonical-histories", corr_histories, ctx, quick)
+    guarded(ctx, "canonical-flags", corr_flags, ctx, quick)
+    guarded(ctx, "common-strand-functions", corr_common, ctx, quick)
+    guarded(ctx, "strand-detector-histories", corr_detector, ctx, quick)
+    guarded(ctx, "construct_fl_isoforms-strands", corr_constructor, ctx, quick)
     ctx.exhaustive = False
-    pipeline(ctx, quick)
+    guarded(ctx, "pipeline", pipeline, ctx, quick)
     ctx.assume.append("pyfaidx: record[a:b] for 0 <= a < b <= len is the substring (out-of-range slices of real records are not exercised at unit level)")
     ctx.assume.append("the harness' FASTA / TSV / GTF readers and its extraction of the two dinucleotides of every intron; harness/props/c18_hook.py only logs calls")
     ctx.assume.append("the reference is ASCII (str.upper on other alphabets is not modelled)")
